@@ -182,16 +182,17 @@ Theorem C10_sorted_data_is_sorted : forall l, Sorted.LocallySorted val_le (sort_
 Proof. exact sort_vals_sorted. Qed.
 Print Assumptions C10_sorted_data_is_sorted.
 
-(* interpolated: inside 0..100 both indices exist ... *)
-Theorem C10_interpolated_percentile_indices_in_range :
-  forall p sorted, (0 <= p)%Q -> (p <= 100)%Q -> sorted <> [] -> pctl_interp p sorted <> OPanic.
-Proof. exact pctl_interp_no_panic. Qed.
-Print Assumptions C10_interpolated_percentile_indices_in_range.
-(* ... outside, the code indexes past the end (DSL percentile functions accept any p): no clamping *)
-Theorem C10_interpolated_percentile_clamps_outside_refuted :
-  exists p sorted, sorted <> [] /\ pctl_interp p sorted = OPanic.
-Proof. exact pctl_interp_panics_outside. Qed.
-Print Assumptions C10_interpolated_percentile_clamps_outside_refuted.
+(* interpolated: the indices exist for EVERY p (the DSL percentile functions accept any p): clamped at both ends
+   (above 100 since fix: 444a9e97f; before it the code indexed past the end and panicked) *)
+Theorem C10_interpolated_percentile_never_out_of_range :
+  forall p sorted, sorted <> [] -> pctl_interp p sorted <> OPanic.
+Proof. exact pctl_interp_never_panics. Qed.
+Print Assumptions C10_interpolated_percentile_never_out_of_range.
+
+Theorem C10_interpolated_percentile_clamps_above_instance :
+  pctl_interp 200 [B "1"; B "2"] = oval_of_val (B "2").
+Proof. exact pctl_interp_clamps_above. Qed.
+Print Assumptions C10_interpolated_percentile_clamps_above_instance.
 
 (* ---- non-vacuity: concrete inputs meet the hypotheses and give the expected numbers *)
 Example C10_nonvacuous :
